@@ -273,6 +273,7 @@ int hsplit(char *line, char **tok, int max)
 uint64_t hclock_ms = 1000000; /* virtual time in ms */
 int hselect_mode = 0;         /* 0: return 0 (nothing readable); 1: mark all requested fds ready */
 long hselect_calls = 0;
+int (*hselect_hook)(int nfds, fd_set *rfds, fd_set *wfds, fd_set *efds, struct timeval *tv) = NULL;
 
 int __wrap_gettimeofday(struct timeval *tv, void *tz)
 {
@@ -297,6 +298,8 @@ int __wrap_select(int nfds, fd_set *r, fd_set *w, fd_set *e, struct timeval *tv)
     (void)tv;
     (void)e;
     hselect_calls++;
+    if (hselect_hook)
+        return hselect_hook(nfds, r, w, e, tv);
     if (hselect_mode == 0) {
         if (r)
             FD_ZERO(r);
